@@ -10,7 +10,8 @@ Per slab_pool member function the TREE of events in source order (see coq/SlabCo
   If a (Else b) / Loop b / Return / Call f
 Any AST shape that is not recognised makes the script exit non-zero (treated as a broken obligation).
 
-Stand-alone: honours VERIF_REPO; `gen_slabconc.py [--out FILE] [--dump]`.
+Stand-alone: honours VERIF_REPO; `gen_slabconc.py [--out FILE [--define MACRO]...] [--dump]`; without --out it writes
+coq/Gen/SlabSkeleton.v (plain) and coq/Gen/SlabSkeletonTR.v (-DFRG_SLAB_TRACK_REGIONS: the pool-wide _frame_tree).
 """
 import hashlib, json, os, subprocess, sys, tempfile
 
@@ -19,10 +20,41 @@ ROOT = os.path.dirname(HERE)
 REPO = os.environ.get("VERIF_REPO", "/repo")
 HDR = os.path.join(REPO, "include", "frg", "slab.hpp")
 OUT = os.path.join(ROOT, "coq", "Gen", "SlabSkeleton.v")
+# second instantiation of the same extraction: the source preprocessed with -DFRG_SLAB_TRACK_REGIONS (the pool-wide
+# _frame_tree exists only there); same events, same field -> lock table, same checker (Properties_C05_slab.v)
+OUT_TR = os.path.join(ROOT, "coq", "Gen", "SlabSkeletonTR.v")
+DEFINES = []          # -D macros for the clang run (set by main)
+# with FRG_SLAB_TRACK_REGIONS the debugging walkers get bodies; they are reachable only through `if(enable_checking)`
+# and enable_checking is the constant false in slab.hpp (checked below), so they are stubbed in that variant
+STUB_WHEN_CHECKING_OFF = ("_verify_integrity", "_verify_frame_integrity")
 
 
 class Unrecognised(Exception):
     pass
+
+
+POISON_CALLS = ("poison", "unpoison", "unpoison_expand")
+
+
+def declref_names(n):
+    """names of the variables referenced anywhere inside an expression"""
+    out = set()
+    def scan(x):
+        if isinstance(x, dict):
+            if x.get("kind") == "DeclRefExpr" and x.get("referencedDecl", {}).get("kind") in ("VarDecl", "ParmVarDecl"):
+                out.add(x["referencedDecl"].get("name"))
+            for c in x.get("inner", []):
+                scan(c)
+    scan(n)
+    return out
+
+
+def mutable_static(d):
+    """VarDecl with static storage duration that is neither constexpr nor const-qualified (thread_local is per thread: fine)"""
+    if d.get("storageClass") != "static" or d.get("tls"):
+        return False
+    ty = d.get("type", {}).get("qualType", "")
+    return not (d.get("constexpr") or ty.startswith("const ") or " const" in ty.split("[")[0] and not ty.rstrip().endswith("*"))
 
 
 def die(n, msg):
@@ -42,8 +74,8 @@ def load_ast():
     with tempfile.TemporaryDirectory(prefix="gen_slabconc_") as td:
         tu = os.path.join(td, "tu.cpp")
         open(tu, "w").write("#include <frg/slab.hpp>\n")
-        cmd = ["clang++", "-std=c++20", "-fsized-deallocation", "-I" + os.path.join(REPO, "include"), "-fsyntax-only",
-               "-Xclang", "-ast-dump=json", "-Xclang", "-ast-dump-filter=slab_pool", tu]
+        cmd = ["clang++", "-std=c++20", "-fsized-deallocation", "-I" + os.path.join(REPO, "include"), "-fsyntax-only"] \
+              + ["-D" + d for d in DEFINES] + ["-Xclang", "-ast-dump=json", "-Xclang", "-ast-dump-filter=slab_pool", tu]
         p = subprocess.run(cmd, capture_output=True, text=True, timeout=300)
         if p.returncode != 0:
             raise Unrecognised("clang failed: " + p.stderr[-2000:])
@@ -145,7 +177,11 @@ class Source:
                     acc = []
                     self._implicit_this_fields(b, acc)
                     self.rec_methods[c["name"]] = acc
-            elif k in ("CXXConstructorDecl", "CXXDestructorDecl", "AccessSpecDecl", "VarDecl", "StaticAssertDecl",
+            elif k == "VarDecl":
+                if mutable_static(c):       # a mutable static data member would be shared by all pools, outside every pool mutex
+                    raise Unrecognised("mutable static data member %s of %s (no pool mutex can protect it)" % (c.get("name"), rname))
+                continue
+            elif k in ("CXXConstructorDecl", "CXXDestructorDecl", "AccessSpecDecl", "StaticAssertDecl",
                        "TypeAliasDecl", "EnumDecl", "FriendDecl", "UsingDecl", "TypedefDecl"):
                 continue
             else:
@@ -262,6 +298,8 @@ class Fn:
         self.lambdas = set()
         self.bktvars = {}       # var -> index expression text
         self.origin = {}        # pointer var -> list of origins
+        self.placed = {}        # pointer var created by placement new -> variables naming the block
+        self.published = set()  # variables whose block has been linked into a shared structure
         self.slabvars = set()   # vars through which slab fields are accessed / tree args
         self.bucket_roots = set()
         self.scopes = []
@@ -376,6 +414,7 @@ class Fn:
                             die(n, "%s: store through an unrecognised path" % self.name)
                         out.append(self.ev('Store "%s" "%s"' % (self.q(v), self.q(ro))))
                         self.origin.setdefault(v, []).append(("stored", ro, member_name(ls)))
+                        self.publish(v)
                 return out
             if op in ("&&", "||"):
                 le, re_ = self.expr(l), self.expr(r)
@@ -438,6 +477,13 @@ class Fn:
             if is_member(base) and member_name(base) == "_plcy":
                 if strip(kids(base)[0]).get("kind") != "CXXThisExpr":
                     die(n, "%s: _plcy of another object" % self.name)
+                late = sorted(declref_names(args[0]) & self.published) if (m in POISON_CALLS and args) else []
+                if late:
+                    # the block was already linked into a shared structure (free list / tree): another thread can own it by
+                    # now, so changing its poison state is an unprotected write to its shadow.  Reported as an access to a
+                    # field the lock table does not know (rejected by the checker on every path).
+                    return argev + [self.ev('PolicyCall "%s"' % m),
+                                    self.ev('Access "policy_%s_after_publication" W "%s"' % (m, self.q(late[0])))]
                 return argev + [self.ev('PolicyCall "%s"' % m)]
             if base.get("kind") == "DeclRefExpr" and base.get("referencedDecl", {}).get("id") in self.guard_ids:
                 g = self.guard_ids[base["referencedDecl"]["id"]]
@@ -469,6 +515,7 @@ class Fn:
                     if m == "insert":
                         out.append(self.ev('Store "%s" "%s"' % (self.q(v), self.q(ro))))
                         self.origin.setdefault(v, []).append(("stored", ro, tf))
+                        self.publish(v)
                     return out
                 if m in TREE_READ:
                     return pre + argev + [self.access(tf, "R", ro)]
@@ -515,12 +562,17 @@ class Fn:
         scan(bodies[0])
 
     # ---- pointer provenance
+    def publish(self, v):
+        self.published.add(v)
+        self.published |= self.placed.get(v, set())
+
     def bind_var(self, v, init):
         """events for `v = init` where v is a variable used as an access root"""
         i = strip(init)
         k = i.get("kind")
         if k == "CXXNewExpr":
             self.origin.setdefault(v, []).append(("new",))
+            self.placed.setdefault(v, set()).update(declref_names(i))      # `new (p) T`: v is the block p
             return [self.ev('Fresh "%s"' % self.q(v))]
         if k in ("CallExpr", "CXXMemberCallExpr"):
             cal = strip(kids(i)[0])
@@ -649,6 +701,11 @@ class Fn:
     def vardecl(self, d):
         name = d["name"]
         ty = d.get("type", {}).get("qualType", "")
+        if mutable_static(d):
+            # a function-local static (or thread-unsafe static storage of any kind) is state shared by ALL threads and all
+            # pools that no pool mutex protects: reported as a write access to a field the lock table does not know
+            # (field_class = None => the checker rejects every path through it, locked or not)
+            return [self.ev('Access "static_storage:%s" W "%s"' % (name, self.q(name)))]
         if any(ty.startswith(t) or ("frg::" + t) in ty for t in OTHER_LOCK_TYPES):
             die(d, "%s: lock type %s is not modelled" % (self.name, ty))
         init = kids(d)[0] if kids(d) else None
@@ -799,12 +856,41 @@ def coq_of(items, ind):
     return " ;;\n".join(parts)
 
 
+def check_checking_off():
+    """the stubbed walkers must be unreachable: enable_checking is the constant false and every call of
+    _verify_integrity() is the body of an `if(enable_checking)`; _verify_frame_integrity is called by the walkers only"""
+    import re
+    text = open(HDR).read()
+    if not re.search(r"constexpr\s+bool\s+enable_checking\s*=\s*false\s*;", text):
+        raise Unrecognised("enable_checking is not the constant false: the _verify_* walkers cannot be stubbed")
+    lines = text.split("\n")
+    infn = None
+    for i, l in enumerate(lines):
+        m = re.search(r"slab_pool<Policy, Mutex>::(\w+)\s*\(", l)
+        if m:
+            infn = m.group(1)
+        if re.search(r"\b_verify_integrity\s*\(\s*\)\s*;", l) and "void" not in l:
+            prev = [x for x in lines[:i] if x.strip()][-1].strip()
+            if prev != "if(enable_checking)":
+                raise Unrecognised("_verify_integrity() called outside `if(enable_checking)` near line %d" % (i + 1))
+        if re.search(r"\b_verify_frame_integrity\s*\(", l) and "void" not in l and infn not in STUB_WHEN_CHECKING_OFF:
+            raise Unrecognised("_verify_frame_integrity called from %s near line %d" % (infn, i + 1))
+
+
 def generate():
     objs = load_ast()
     src = Source(objs)
     fr = fresh_returning(src)
     defs, names = [], []
+    stub = set()
+    if "FRG_SLAB_TRACK_REGIONS" in DEFINES:
+        stub = set(STUB_WHEN_CHECKING_OFF)
+        check_checking_off()
     for f in src.order:
+        if f in stub:
+            defs.append("Definition sk_%s : sk :=\n  Skip.\n" % f)
+            names.append(f)
+            continue
         fn = Fn(src, f, fr)
         items = fn.translate()
         defs.append("Definition sk_%s : sk :=\n%s.\n" % (f, coq_of(items, 1)))
@@ -823,14 +909,17 @@ def generate():
     return txt
 
 
-def main():
-    out = OUT
-    if "--out" in sys.argv:
-        out = sys.argv[sys.argv.index("--out") + 1]
+def emit(out, defines):
+    """generate one skeleton file; returns 0, or 3 after leaving a stub that fails every obligation"""
+    global DEFINES
+    DEFINES = list(defines)
     try:
         txt = generate()
+        if defines:
+            txt = txt.replace("(* GENERATED by translator/gen_slabconc.py from include/frg/slab.hpp",
+                              "(* GENERATED by translator/gen_slabconc.py (clang -D%s) from include/frg/slab.hpp" % " -D".join(defines), 1)
     except Unrecognised as ex:
-        sys.stderr.write("gen_slabconc: UNRECOGNISED AST SHAPE: %s\n" % ex)
+        sys.stderr.write("gen_slabconc%s: UNRECOGNISED AST SHAPE: %s\n" % ((" -D" + " -D".join(defines)) if defines else "", ex))
         # leave a file behind that cannot be mistaken for a valid skeleton
         try:
             os.makedirs(os.path.dirname(out), exist_ok=True)
@@ -838,14 +927,27 @@ def main():
                                  "Definition actual : skeleton := nil.\n" % str(ex).replace("*)", "* )"))
         except OSError:
             pass
-        sys.exit(3)
+        return 3, None
     os.makedirs(os.path.dirname(out), exist_ok=True)
     old = open(out).read() if os.path.exists(out) else None
     if old != txt:
         open(out, "w").write(txt)
-    if "--dump" in sys.argv:
-        sys.stdout.write(txt)
-    sys.exit(0)
+    return 0, txt
+
+
+def main():
+    defines = [sys.argv[i + 1] for i, a in enumerate(sys.argv) if a == "--define" and i + 1 < len(sys.argv)]
+    if "--out" in sys.argv:
+        jobs = [(sys.argv[sys.argv.index("--out") + 1], defines)]
+    else:                   # default: both instantiations (plain, and with the region tree compiled in)
+        jobs = [(OUT, []), (OUT_TR, ["FRG_SLAB_TRACK_REGIONS"])]
+    rc = 0
+    for out, d in jobs:
+        r, txt = emit(out, d)
+        rc = rc or r
+        if "--dump" in sys.argv and txt is not None:
+            sys.stdout.write(txt)
+    sys.exit(rc)
 
 
 if __name__ == "__main__":
